@@ -181,7 +181,7 @@ def run(ctx):
         run_batch(ctx, scripts, "G-%d-%d-%d-%d-%s-%d" % (base, L, alpha, rate, "latest" if latest else "inorder", tsb))
     # (T) seeded random long histories
     n, length = (40, 600) if ctx.quick else (400, 3000)
-    rs = [random_script(rng, length) for _ in range(n)]
+    rs = [vlib.remap_ids(random_script(rng, length), rng.choice(vlib.SSRC_TABLES)) for _ in range(n)]
     rs.append(random_script(rng, 200, wrap_octets=True))
     if not ctx.quick:
         rs += [random_script(rng, 200, wrap_octets=True) for _ in range(3)]
